@@ -110,9 +110,9 @@ void dataframe::columns_info::push_front(const column_info &v)
 /// The function can be called multiple times to incrementally collect
 /// information from different examples.
 ///
-/// When `header_first` is `true` the first example is used to gather the names
-/// of the columns and successive example contribute to determine the domain
-/// of each column.
+/// When `header_first` is `true` the first example (since the last call of
+/// `new_table`) is used to gather the names of the columns and successive
+/// example contribute to determine the domain of each column.
 ///
 /// \remark The function assumes columns `0` as the output column.
 ///
@@ -140,23 +140,31 @@ void dataframe::columns_info::build(const record_t &r, bool header_first)
 
   const auto fields(r.size());
 
-  if (cols_.empty())
+  // The first record of a table with a header contains the names of the
+  // columns (used when the columns aren't known yet) and never says anything
+  // about their domains.
+  if (header_first && !header_seen_)
   {
-    cols_.reserve(fields);
+    header_seen_ = true;
 
-    if (header_first)  // first line contains the names of the columns
+    if (cols_.empty())
     {
+      cols_.reserve(fields);
       std::transform(r.begin(), r.end(),
                      std::back_inserter(cols_),
                      [](const auto &name)
                      {
                        return column_info{trim(name), d_void, {}};
                      });
-
-      return;
     }
-    else
-      std::fill_n(std::back_inserter(cols_), fields, column_info());
+
+    return;
+  }
+
+  if (cols_.empty())
+  {
+    cols_.reserve(fields);
+    std::fill_n(std::back_inserter(cols_), fields, column_info());
   }
 
   // A record with a wrong number of fields is malformed (`read_record` skips
@@ -708,6 +716,7 @@ std::size_t dataframe::read_csv(const std::filesystem::path &fn,
 std::size_t dataframe::read_csv(std::istream &from, params p)
 {
   clear();
+  columns.new_table();
 
   if (p.dialect.has_header == pocket_csv::dialect::GUESS_HEADER
       || !p.dialect.delimiter)
